@@ -10,6 +10,7 @@ from __future__ import annotations
 
 import bundler_gen as G
 import bundler_props as P
+import fault_probes as FP
 
 MANIFEST = {
     "text": "FULL. Theorems over ALL histories of bundler operations after open_run (any devices, any order, malformed "
@@ -37,7 +38,10 @@ extract = P.extract
 
 
 def run(ctx, model=True):
-    return P.run(ctx, "C15", "C15", 900, 20000, exhaustive=(G.exhaustive_small,), model=model, rule=RULE)
+    res = P.run(ctx, "C15", "C15", 900, 20000, exhaustive=(G.exhaustive_small,), model=model, rule=RULE)
+    # the bundler histories have one run; a checkpoint addressed to ANOTHER run while this one is bundling is probed on the engine
+    FP.run_probes(ctx, res, [FP.checkpoint_rejected], ["cross-run-checkpoint"], 9, 60)
+    return res
 
 
 def run_impl_only(ctx):
@@ -45,4 +49,6 @@ def run_impl_only(ctx):
 
 
 def replay(ctx, data):
+    if FP.is_probe(data):
+        return FP.replay_probe(ctx, data, [FP.checkpoint_rejected])
     return P.replay(ctx, "C15", data)
